@@ -66,6 +66,30 @@ def requests(tier, rng):
             add("polyvec::%s::k_make_hint %s %s" % (lv, V(v0), V(v1)), ["poly::%s::make_hint %s %s" % (lv, fmt(a), fmt(b)) for a, b in zip(v0, v1)], "k_make_hint")
             a = [rpoly(rng, 0, Q - 1) for _ in range(k)]; h = [[rng.randrange(2) for _ in range(256)] for _ in range(k)]
             add("polyvec::%s::k_use_hint %s %s" % (lv, V(a), V(h)), ["poly::%s::use_hint %s %s" % (lv, fmt(x), fmt(y)) for x, y in zip(a, h)], "k_use_hint")
+            # structured second operands: all-zero rows (every subset pattern for small k, else each single row and alternating),
+            # a single non-zero position, all-one rows -- a loop that special-cases "nothing to do" rows is seen here
+            pats = [[0] * k, [1] * k] + [[1 if j == i else 0 for j in range(k)] for i in range(k)] + [[0 if j == i else 1 for j in range(k)] for i in range(k)] + [[j % 2 for j in range(k)]]
+            for pat in pats:
+                h = [([0] * 256 if pat[i] == 0 else [1 if (j * 7 + i) % 16 == 0 else 0 for j in range(256)]) for i in range(k)]
+                add("polyvec::%s::k_use_hint %s %s" % (lv, V(a), V(h)), ["poly::%s::use_hint %s %s" % (lv, fmt(x), fmt(y)) for x, y in zip(a, h)], "k_use_hint")
+                z0 = [([0] * 256 if pat[i] == 0 else rpoly(rng, -2**20, 2**20)) for i in range(k)]
+                w = [rpoly(rng, -2**20, 2**20) for _ in range(k)]
+                add("polyvec::%s::k_add %s %s" % (lv, V(w), V(z0)), ["poly::add_ip %s %s" % (fmt(x), fmt(y)) for x, y in zip(w, z0)], "k_add")
+                add("polyvec::%s::k_sub %s %s" % (lv, V(w), V(z0)), ["poly::sub_ip %s %s" % (fmt(x), fmt(y)) for x, y in zip(w, z0)], "k_sub")
+            # hint creation with exactly / just below / just above omega ones after each row
+            om = S.P(lv).omega
+            for upto in range(k):
+                for tot in (om - 1, om, om + 1):
+                    v0 = [[0] * 256 for _ in range(k)]; v1 = [[0] * 256 for _ in range(k)]
+                    left = tot
+                    for i in range(upto + 1):
+                        c = left if i == upto else min(left, tot // (upto + 1))
+                        for j in range(c):
+                            v0[i][(j * 3) % 256] = g2 + 1
+                        left -= c
+                    for i in range(upto + 1, k):
+                        v0[i][5] = g2 + 1; v0[i][77] = -g2 - 1
+                    add("polyvec::%s::k_make_hint %s %s" % (lv, V(v0), V(v1)), ["poly::%s::make_hint %s %s" % (lv, fmt(x), fmt(y)) for x, y in zip(v0, v1)], "k_make_hint")
             # matrix-vector product: rows and columns all different
             mat = [[rpoly(rng, 0, Q - 1) for _ in range(l)] for _ in range(k)]
             v = [rpoly(rng, -9 * Q + 1, 9 * Q - 1) for _ in range(l)]
